@@ -133,6 +133,7 @@ def prepare_globals(record):
     from gvsim import lib
 
     lib.set_alias(record.get('alias_objects', False))
+    lib.set_from_shape(record.get('grid_from_shape', False))
     if not record.get('keep_caches', False):
         clear_caches()
 
